@@ -694,7 +694,7 @@ impl Session {
             "decap_storm" => {
                 let threads = (a.u("threads") as usize).clamp(2, 64);
                 let reps = (a.u("reps") as usize).clamp(1, 10_000_000);
-                let (bad, calls) = self.kem.as_ref().unwrap().decap_storm(a.b("ikm"), threads, reps);
+                let (bad, calls) = self.kem.as_ref().unwrap().decap_storm(a.b("ikm"), threads, reps, a.u("auth") == 1);
                 f.ok().kv("mism", bad).kv("calls", calls).kv("threads", threads);
             }
             "errfmt" => {
